@@ -106,6 +106,15 @@ def handlePi (j : Json) : Except String String := do
     | .obj kvs => mapM' parseBlockInfo kvs.toList
     | _ => throw "blocks"
   let seeds ← mapM' (fun s => s.getNat?) (← arrF j "seeds")
+  -- explicit initial register values per run (optional): `[[name, size, value]…]`
+  let inits : List (List (Variable × Nat)) ← match j.getObjVal? "inits" with
+    | .ok (.arr runs) => mapM' (fun (r : Json) => do
+        let l ← r.getArr?
+        mapM' (fun (e : Json) => do
+          let a ← e.getArr?
+          let v : Variable := { name := ← a[0]!.getStr?, size := ← a[1]!.getNat? }
+          return (v, ← a[2]!.getNat?)) l.toList) runs.toList
+    | _ => pure []
   let regs := p.registerSet
   let sp := p.stackPointerRegister
   let some b0 := sub.term.blocks.head? | throw "no blocks"
@@ -114,8 +123,8 @@ def handlePi (j : Json) : Except String String := do
   let mut completed := 0
   let mut aborted := 0
   let mut unknownIds := false
-  for seed in seeds do
-    let σ0 := initState seed sp regs
+  for (seed, run) in seeds.zipIdx do
+    let σ0 := ((inits[run]?).getD []).foldl (fun s (v, x) => s.setReg v (Bv.ofBytes v.size x)) (initState seed sp regs)
     let ν : Nat → Option Nat := fun i => (ids[i]?).bind (valuate σ0 fnTid)
     let vs := runVisits sub.term.blocks 40 b0.tid .entry σ0
     reached := reached + vs.length
@@ -379,6 +388,16 @@ def handleEv (j : Json) : Except String String := do
             let rs := picks.map fun p => s!"{p.1.name}={(p.2.map showBv).getD "?"}"
             err := some s!"{showBv v}@{" ".intercalate rs}"
         | none => pure ()
+  -- `handle_register_assign`: the binding of the target afterwards
+  match j.getObjVal? "assigned" with
+  | .ok aj =>
+    if aj != Json.null then
+      let assigned ← parseDData aj
+      let tgt : Variable := { name := "TGT", size := e.bytesize }
+      let m := (st.handleRegisterAssign tgt e).getReg tgt
+      if m != assigned then
+        return s!"diff class=ev-assign:{kind} model={showDData m} impl={showDData assigned}"
+  | .error _ => pure ()
   return verdictD s!"ev:{kind}" model impl inHyp err
     (s!"ev {kind}" ++ (if evaluated > 0 then " concretely-evaluated" else "") ++
       (if impl.rel.any (·.1 == gid) then " global-pointer" else ""))
